@@ -102,6 +102,9 @@ func (vc *VC) globalCell(st *State, g *ssa.Global) *Cell {
 	if _, ok := st.mem[c]; !ok {
 		elemT := g.Type().(*types.Pointer).Elem()
 		if vc.eng.isRepoPkg(g.Pkg.Pkg) {
+			if !vc.initDone[g.Pkg] && vc.initRunning != g.Pkg {
+				panic(execError{"global " + g.Pkg.Pkg.Name() + "." + g.Name() + " read before its package was initialised in this state"})
+			}
 			st.mem[c] = vc.zeroGlobal(elemT, st, g)
 		} else {
 			st.mem[c] = vc.externalGlobal(g, elemT, st)
@@ -826,7 +829,7 @@ func (vc *VC) fBin(op token.Token, a, b Term, bits int) Term {
 		case token.MUL:
 			return vc.rnd(NumMul(a, b), bits)
 		case token.QUO:
-			return vc.rnd(RealDiv(a, b), bits)
+			return vc.rnd(vc.realDiv(a, b), bits)
 		}
 	}
 	panic(execError{"unsupported float op " + op.String()})
@@ -1433,26 +1436,31 @@ func (vc *VC) invoke(fr *Frame, st *State, fnv Val, args []Val, c *ssa.CallCommo
 func (vc *VC) ufCall(sym string, sig *types.Signature, args []Val) []Val {
 	var targs []Term
 	for _, a := range args {
-		t, ok := a.(Term)
-		if !ok {
-			panic(execError{"uninterpreted function " + sym + " applied to non-scalar"})
+		switch a.(type) {
+		case Term, StructVal, ArrVal:
+			targs = append(targs, vc.flattenVal(a)...)
+		default:
+			panic(execError{fmt.Sprintf("uninterpreted function %s applied to %T", sym, a)})
 		}
-		targs = append(targs, t)
 	}
 	var rets []Val
 	rs := sig.Results()
 	for i := 0; i < rs.Len(); i++ {
-		s, ok := vc.sortOf(rs.At(i).Type())
+		rt := rs.At(i).Type()
+		sorts, ok := vc.flattenSorts(rt)
 		if !ok {
-			panic(execError{"uninterpreted function " + sym + " with non-scalar result"})
+			panic(execError{"uninterpreted function " + sym + " with unsupported result type"})
 		}
-		nm := sym
-		if rs.Len() > 1 {
-			nm = fmt.Sprintf("%s.%d", sym, i)
+		var ts []Term
+		for k, s := range sorts {
+			nm := sym
+			if rs.Len() > 1 || len(sorts) > 1 {
+				nm = fmt.Sprintf("%s.%d.%d", sym, i, k)
+			}
+			ts = append(ts, vc.ufApp(nm, s, targs...))
 		}
-		t := vc.ufApp(nm, s, targs...)
-		t.Signed = isSigned(rs.At(i).Type())
-		rets = append(rets, t)
+		k := 0
+		rets = append(rets, vc.unflatten(rt, ts, &k))
 	}
 	return rets
 }
@@ -1483,4 +1491,25 @@ func (vc *VC) callStatic(fr *Frame, st *State, fn *ssa.Function, args []Val, bin
 		return vc.callModular(fr, st, fn, fc, args, pos)
 	}
 	return vc.callFunction(fn, args, bind, st, fr)
+}
+
+
+// realDiv: in exact-real mode a quotient by a non-constant divisor is introduced as a
+// fresh variable q with the defining polynomial constraint b != 0 => q*b = a, which keeps
+// the queries inside polynomial arithmetic (the solvers' complete fragment).
+func (vc *VC) realDiv(a, b Term) Term {
+	if b.R != nil || vc.mode.Rnd || vc.noDefine > 0 || vc.divAsTerm {
+		return RealDiv(a, b)
+	}
+	key := a.E + " / " + b.E
+	if q, ok := vc.divCache[key]; ok {
+		return q
+	}
+	q := vc.freshTerm("quot", SReal)
+	vc.decl(fmt.Sprintf("(assert (=> (not (= %s 0.0)) (= (* %s %s) %s))) ;anchor=%s", b.E, q.E, b.E, a.E, q.E))
+	if vc.divCache == nil {
+		vc.divCache = map[string]Term{}
+	}
+	vc.divCache[key] = q
+	return q
 }
